@@ -433,6 +433,12 @@ def shrink_world(exe_r, exe_m, j, key, max_steps=120):
 
 def run(ctx):
     quick = ctx.tier == "quick"
+    import time
+    timing, t_last = {}, [time.time()]
+
+    def lap(name):
+        timing[name] = round(time.time() - t_last[0], 1)
+        t_last[0] = time.time()
     ctx.assumptions += [
         "spec: Valid/CoreDecls.v `expected` transcribes the component model's LEGACY core name mangling (wit-parser 0.257 wasm_import_name / wasm_export_name / task_return_import / ManglingAndAbi::for_func; wit-component 0.257 validation.rs for the world-independent built-ins and for which exports are required); it is re-tied to those functions and to wit-component's dummy_module on every world explored",
         "core signatures of WIT functions are taken from wit-parser's wasm_signature (wasm32: Pointer/Length -> i32, PointerOrI64 -> i64); signatures of intrinsics are the fixed ones of validation.rs",
@@ -440,7 +446,9 @@ def run(ctx):
         "backend option variants and unsupported-feature exclusions are transcribed from crates/test/src/<lang>.rs (default_bindgen_args, default_bindgen_args_for_codegen, codegen_test_variants, should_fail_verify)",
     ]
     ctx.proof_leg(["theories/Props/C13.vo"], ["Props.C13"], THEOREMS)
+    lap("proof")
     ok1, exe_r, log1, ok2, exe_m, log2 = build()
+    lap("build")
     if not ok1:
         ctx.tie_broken("tie", "harness build against the repository failed:\n" + log1[-3000:]); return
     if not ok2:
@@ -449,12 +457,13 @@ def run(ctx):
     # ---- worlds: corpus first, then tests/codegen, then random
     corpus = load_corpus()
     codegen = codegen_worlds()
-    nrand = 48 if quick else 1500
+    nrand = 48 if quick else 600
     rnd, rejected = random_worlds(ctx.rng.fork(1), nrand)
     worlds = corpus + codegen + rnd
     problems = world_tables(exe_r, exe_m, worlds)
     for w, p in problems[:5]:
         ctx.tie_broken("oracle-tie", "world %s (%s): %s\n%s" % (w["name"], w["origin"], p, (w.get("text") or w["src"])[:1500]))
+    lap("worlds+oracle-tie")
     live = [w for w in worlds if not w.get("skip")]
     skipped_worlds = [(w["name"], w["skip"][:120]) for w in worlds if w.get("skip")]
 
@@ -480,6 +489,7 @@ def run(ctx):
         return chosen[k]
     jobs = jobs_for(live, variants_of=variants_of)
     run_jobs(exe_r, exe_m, jobs)
+    lap("generate+scrape+check")
 
     # ---- translator health (tie): generator failures are another property's business (C16) but must not hollow out the run
     per_lang = {l: {"jobs": 0, "generated": 0, "gen_failed": 0, "decls": 0, "imports": 0, "exports": 0, "unreferenced_imports": 0,
@@ -549,9 +559,10 @@ def run(ctx):
         ctx.violation(key, what, {"lang": j["lang"], "opts": j["opts"], "world": j["w"]["world"], "wit": wit, "key": key,
                                    "origin": j["w"]["origin"] + ":" + j["w"]["name"]})
 
+    lap("classes+encoder+shrink")
     # ---- agreement sample: clean cases must also satisfy the real encoder (accept, nothing ignored)
     clean = [j for j in jobs if j["status"] == "ok" and not j["errors"] and j["decls"] and all(d["sig"] != "?" for d in j["decls"])]
-    samp_n = 64 if quick else 1200
+    samp_n = 64 if quick else 600
     sr = ctx.rng.fork(3)
     sample = clean if len(clean) <= samp_n else [clean[sr.below(len(clean))] for _ in range(samp_n)]
     lines = [j["w"]["world"] + SEP + j["w"]["src"] + SEP + decl_line(j["decls"]) for j in sample]
@@ -571,6 +582,7 @@ def run(ctx):
             ctx.tie_broken("encoder-agreement", "checker passes but the real ComponentEncoder says %r for %s %s world %s" % (
                 r.replace(SEP, " | ").replace(FS, ", ")[:400], j["lang"], j["opts"], j["w"]["name"]))
 
+    lap("encoder-agreement-sample")
     ndecl = sum(len(j["decls"]) for j in jobs if j["status"] == "ok")
     nontriv = set()
     for j in jobs:
@@ -594,6 +606,7 @@ def run(ctx):
         "encoder_cross_check": {"classes_examined": len(classes), "clean_cases_sampled": len(sample), "clean_cases_rejected_or_ignored": len(enc_bad),
                                 "disagreements": disagreements},
         "finding_classes": class_report,
+        "phase_wall_s": timing,
         "distribution": {"worlds": {"corpus": len(corpus), "codegen": len(codegen), "random": len(rnd), "random_rejected_by_wit_parser": rejected,
                                     "skipped": skipped_worlds[:10]},
                          "random_world_features": feat_hist, "per_backend": per_lang, "generator_failures": gen_fail_samples},
